@@ -2,6 +2,7 @@ import NomtModel.Store.WalkerBuild
 import NomtModel.Core.TriePos
 import NomtModel.Store.PageDiffModel
 import NomtModel.Store.PageLayout
+import NomtModel.Core.Bits
 /-!
 # Mirror of `nomt/src/merkle/page_walker.rs` (`PageWalker`)
 
@@ -139,13 +140,6 @@ def Walker.new (root : Node) (parent : Option PageId) : Walker Node := Walker.ne
 
 /-- `PageWalker::new_reconstructor` -/
 def Walker.newReconstructor (root : Node) (parent : PageId) : Walker Node := Walker.newInner root (some parent) true
-
-/-- `Ord for BitSlice`: lexicographic, a proper prefix is smaller (`new_pos.path() > pos.path()` is `bitsLt pos new`) -/
-def bitsLt : List Bool → List Bool → Bool
-  | [], [] => false
-  | [], _ :: _ => true
-  | _ :: _, [] => false
-  | a :: as, b :: bs => (!a && b) || (a == b && bitsLt as bs)
 
 section
 variable (H : Hasher Node VH) [DecidableEq Node]
@@ -616,11 +610,12 @@ def Walker.placeNode (w : Walker Node) (node : Node) : WR (Walker Node) :=
 
 /-! ## the public calls -/
 
-/-- the common prologue: `assert!(new_pos.path() > pos.path()); self.compact_up(Some(new_pos))` -/
+/-- the common prologue: `assert!(new_pos.path() > pos.path()); self.compact_up(Some(new_pos))`; `Ord for BitSlice` is
+lexicographic with a proper prefix smaller = `bitsLt` of `Core/Bits.lean` -/
 def Walker.advancePrologue (w : Walker Node) (newPos : Pos) : WR (Walker Node) :=
   match w.lastPosition with
   | some pos =>
-    if ¬ bitsLt pos.path newPos.path then .panic "advance: assert!(new_pos.path() > pos.path())"
+    if ¬ Nomt.bitsLt pos.path newPos.path then .panic "advance: assert!(new_pos.path() > pos.path())"
     else w.compactUp H (some newPos)
   | none => .ok w
 
